@@ -1347,4 +1347,136 @@ Proof.
     pose proof (s_reward _ _ _ _ Hs Er). simpl in H0. destruct (r_reward th); try congruence. discriminate.
 Qed.
 
+
+(* ---- one step of one thread preserves the invariant ------------------------------------------------------------- *)
+Lemma regs_ret : forall me e g th, match e with ESetRet _ | EPolicy => True | _ => r_ret (regs c me e g th) = r_ret th end.
+Proof. destruct e; simpl; intros; auto; repeat destr_match; reflexivity. Qed.
+
+Lemma thread_ok_at : forall g' t th' p j a' a'', pc th' = Some (p, j) -> an_get (ann p) j (r_ret th') = Some a'' -> leq a' a'' = true ->
+  sat g' t th' a' -> thread_ok g' t th'.
+Proof. intros. exists a''. split. unfold cur_a. rewrite H. auto. eapply sat_leq; eauto. Qed.
+
+Lemma Inv_assemble : forall g ts t th g' th', nth_error ts t = Some th ->
+  (forall t' th2, nth_error ts t' = Some th2 -> thread_ok g t' th2) ->
+  LockInv g' (set_th ts t th') -> GI g' (set_th ts t th') -> thread_ok g' t th' -> others_stable g g' ts t ->
+  Inv g' (set_th ts t th').
+Proof.
+  intros g ts t th g' th' Ht HT HL HG Hok Hoth. constructor; auto.
+  intros t0 th0 Hn. destruct (Nat.eq_dec t t0).
+  - subst. erewrite nth_error_set_th_eq in Hn; eauto. inv Hn. auto.
+  - rewrite nth_error_set_th_neq in Hn; auto. destruct (HT _ _ Hn) as [a2 [A B]]. exists a2. split; auto.
+Qed.
+
+Lemma others_refl : forall g ts t, others_stable g g ts t.
+Proof. red; auto. Qed.
+
+Theorem Inv_step : forall g ts t g' ts', Inv g ts -> step1 ps c g ts t = Some (g', ts') -> Inv g' ts'.
+Proof.
+  intros g ts t g' ts' [HL HG HT] Hstep.
+  pose proof (LockInv_step _ _ _ _ _ _ _ HL Hstep) as HL'.
+  destruct (step1_inv _ _ _ _ _ _ _ Hstep) as [th [p [i [Ht [Hpc Hcase]]]]].
+  destruct (HT _ _ Ht) as [a [Hcur Hs]]. unfold cur_a in Hcur. rewrite Hpc in Hcur.
+  destruct Hcase as [[Hf [Hg Hts]] | [gate [x [th' [Hf [Hact Hts]]]]]].
+  - (* falling off the end of an entry *)
+    subst g' ts'. rewrite fetch_nth in Hf. destruct (check_end _ _ _ _ Hcur Hf) as [Hok [Hlk Hnd]].
+    pose proof (sat_a0 _ _ _ _ Hs Hlk Hnd) as Hs0.
+    eapply Inv_assemble; eauto.
+    + eapply GI_frame; eauto. apply same_gi_refl. apply (sr_gh _ _ (same_regs_to_script th)). intros; eapply same_regs_holds; eauto. apply same_regs_to_script.
+    + eapply thread_ok_entry; eauto. apply same_regs_to_script. apply to_script_pc.
+    + apply others_refl.
+  - subst ts'. rewrite fetch_nth in Hf. destruct (check_succ _ _ _ _ _ _ Hcur Hf) as [Hreq Hsucc].
+    destruct x; simpl in Hact.
+    + (* Acquire *)
+      destruct (locks g (phys l g th)) eqn:El; try discriminate. inv Hact.
+      destruct (Hsucc (S i) (r_ret th) (with_locks (l :: a_locks a) a)) as [a'' [A B]]; [simpl; auto|].
+      pose proof (sat_acquire g t th a l (Some t) Hs) as Hs'.
+      eapply Inv_assemble; eauto.
+      * eapply GI_frame; eauto. constructor; reflexivity. intros k Hk. unfold holds_k in *. simpl. auto.
+      * eapply thread_ok_at with (a' := with_locks (l :: a_locks a) a); simpl; eauto.
+        eapply sat_frame; [apply same_study_refl | | exact Hs']. constructor; reflexivity.
+      * apply others_same_study. constructor; reflexivity.
+    + (* Release *)
+      unfold req in Hreq. bool_hyps.
+      destruct (a_locks a) as [|l' rest] eqn:Elk; try discriminate. bool_hyps.
+      match goal with H : lockref_eqb l l' = true |- _ => apply lockref_eqb_eq in H; subst l' end.
+      destruct (held th) as [|[l0 k] h] eqn:Eh.
+      { pose proof (s_locks _ _ _ _ Hs) as Hm. rewrite Eh, Elk in Hm. discriminate. }
+      inv Hact.
+      assert (El0 : l0 = l). { pose proof (s_locks _ _ _ _ Hs) as Hm. rewrite Eh, Elk in Hm. simpl in Hm. congruence. }
+      subst l0.
+      destruct (Hsucc (S i) (r_ret th) (with_locks (tl (a_locks a)) a)) as [a'' [A B]]; [simpl; auto|].
+      pose proof (sat_release g t th a l k h None Hs Eh) as Hs'.
+      eapply Inv_assemble; eauto.
+      * eapply GI_frame2; eauto. constructor; reflexivity.
+        intros Hr. pose proof (gi_reglock _ _ HG _ _ Ht Hr) as Hk. unfold holds_k in *. rewrite Eh in Hk. simpl in Hk. simpl. destruct Hk as [Hk | Hk]; auto.
+        exfalso. subst k. pose proof (s_phys _ _ _ _ Hs l KReg) as Hp. rewrite Eh in Hp. specialize (Hp (or_introl eq_refl)).
+        destruct l; try discriminate; try (destruct Hp; discriminate).
+        rewrite (s_dreg _ _ _ _ Hs) in Hr. bool_hyps. congruence.
+      * eapply thread_ok_at with (a' := with_locks (tl (a_locks a)) a); simpl; eauto.
+        eapply sat_frame; [apply same_study_refl | | exact Hs']. constructor; reflexivity.
+      * apply others_same_study. constructor; reflexivity.
+    + (* Stmt *)
+      destruct (sem c t e g th) as [g1 th1] eqn:Esem. inv Hact.
+      destruct (stmt_sound e rd wr a g ts t th HL HG HT Ht Hs Hreq g1 th1 Esem) as [S1 [S2 S3]].
+      assert (Hret : exists b' a', In (S i, b', a') (succs i (r_ret th) a (Stmt rd wr e)) /\ r_ret th1 = b' /\ sat g1 t th1 a').
+      { pose proof (regs_ret t e g th) as Hr.
+        assert (Eth : th1 = regs c t e g th) by (unfold sem in Esem; inv Esem; reflexivity).
+        rewrite <- Eth in Hr.
+        destruct e; simpl succs; simpl post_eff in S1;
+          try (exists (r_ret th); eexists; split; [left; reflexivity | split; [exact Hr | exact S1]]).
+        - (* ESetRet *) exists b; eexists; split; [left; reflexivity | split; [|exact S1]]. rewrite Eth. reflexivity.
+        - (* EPolicy *) destruct (r_ret th1) eqn:Er.
+          + exists true; eexists; split; [left; reflexivity | split; [reflexivity | exact S1]].
+          + exists false; eexists; split; [right; left; reflexivity | split; [reflexivity | exact S1]]. }
+      destruct Hret as [b' [a' [Hin [Hb Hsa]]]].
+      destruct (Hsucc _ _ _ Hin) as [a'' [A B]].
+      unfold sem in Esem. injection Esem as Eg1 Eth1. subst g1 th1.
+      eapply Inv_assemble; eauto.
+      * apply S2. apply same_regs_pc.
+      * eapply thread_ok_at with (a' := a'); simpl; eauto. rewrite Hb. eauto.
+        eapply sat_frame; [apply same_study_refl | apply same_regs_pc | exact Hsa].
+    + (* Branch *)
+      inv Hact. unfold req in Hreq.
+      assert (Hrb : req (Branch rd c0 off) a = true) by exact Hreq.
+      destruct (branch_sound c0 rd off a g ts t th HL HG Ht Hs Hrb) as [B1 [B2 [B3 B4]]].
+      set (b := evalc c c0 g th) in *.
+      assert (Hin : In ((if b then S i else S i + off), r_ret th, post_br c0 b a) (succs i (r_ret th) a (Branch rd c0 off))).
+      { simpl. destruct (static_cond (r_ret th) a c0) as [[|]|] eqn:Est; destruct b; simpl in *; auto; exfalso; apply B1; reflexivity. }
+      destruct (Hsucc _ _ _ Hin) as [a'' [A B]].
+      assert (Hret : r_ret (note_branch c0 b th) = r_ret th) by (destruct c0, b; reflexivity).
+      eapply Inv_assemble; eauto.
+      * apply B3. apply same_regs_pc.
+      * eapply thread_ok_at with (a' := post_br c0 b a); simpl; eauto. rewrite Hret. eauto.
+        eapply sat_frame; [apply same_study_refl | apply same_regs_pc | exact B2].
+    + (* Jump *)
+      inv Hact. destruct (Hsucc (S i + off) (r_ret th) a) as [a'' [A B]]; [simpl; auto|].
+      eapply Inv_assemble; eauto.
+      * eapply GI_frame; eauto. apply same_gi_refl.
+      * eapply thread_ok_at with (a' := a); simpl; eauto. eapply sat_frame; [apply same_study_refl | apply same_regs_pc | exact Hs].
+      * apply others_refl.
+    + (* Throw *)
+      unfold req in Hreq. bool_hyps. destruct (a_locks a) eqn:Elk; try discriminate.
+      pose proof (sat_a0 _ _ _ _ Hs Elk ltac:(assumption)) as Hs0.
+      destruct k; inv Hact.
+      * eapply Inv_assemble; eauto.
+        -- eapply GI_frame; eauto. apply same_gi_refl.
+        -- eapply thread_ok_entry; eauto. apply same_regs_pc.
+        -- apply others_refl.
+      * eapply Inv_assemble; eauto.
+        -- eapply GI_frame; eauto. apply same_gi_refl. apply (sr_gh _ _ (same_regs_to_script th)). intros; eapply same_regs_holds; eauto. apply same_regs_to_script.
+        -- eapply thread_ok_entry; eauto. apply same_regs_to_script. apply to_script_pc.
+        -- apply others_refl.
+      * eapply Inv_assemble; eauto.
+        -- eapply GI_frame; eauto. apply same_gi_refl. apply (sr_gh _ _ (same_regs_to_script th)). intros; eapply same_regs_holds; eauto. apply same_regs_to_script.
+        -- eapply thread_ok_entry; eauto. apply same_regs_to_script. apply to_script_pc.
+        -- apply others_refl.
+    + (* Done *)
+      unfold req in Hreq. bool_hyps. destruct (a_locks a) eqn:Elk; try discriminate.
+      pose proof (sat_a0 _ _ _ _ Hs Elk ltac:(assumption)) as Hs0. inv Hact.
+      eapply Inv_assemble; eauto.
+      * eapply GI_frame; eauto. apply same_gi_refl. apply (sr_gh _ _ (same_regs_to_script th)). intros; eapply same_regs_holds; eauto. apply same_regs_to_script.
+      * eapply thread_ok_entry; eauto. apply same_regs_to_script. apply to_script_pc.
+      * apply others_refl.
+Qed.
+
 End Sound.
